@@ -13,6 +13,8 @@ def spec_strides(kind, sp, pat, es, ss, pv):
     if kind == 'left': return [C.prod(es[:k]) for k in range(r)]
     if kind == 'right': return [C.prod(es[k + 1:]) for k in range(r)]
     if kind == 'stride': return list(ss)
+    if kind == 'ulog': return [2 * C.prod(es[k + 1:]) for k in range(r)]
+    if kind == 'urev': return [C.prod(es[k + 1:]) for k in range(r)]
     if r < 2: return [1] * r
     e = es[0] if kind == 'lpad' else es[-1]
     ps = lm(pv, e) if pv is not None else (e if sp in ('D', None) else lm(sp, e))
@@ -53,9 +55,9 @@ def gen_cases(seed, tier, purposes):
                 if max(ss + [0]) > H: continue
             pv = rnd.choice([None, 1, 2, 3]) if (kind in ('lpad', 'rpad') and sp == 'D') else None
             st = spec_strides(kind, sp, pat, es, ss, pv)
-            span = 0 if any(e == 0 for e in es) else 1 + sum((e - 1) * s for e, s in zip(es, st))
+            span = 0 if any(e == 0 for e in es) else 1 + sum((e - 1) * s for e, s in zip(es, st)) + (1 if kind == 'ulog' else 0)
             if span > min(H, 900): continue
-            hs = [0, 7, 300, 1000]
+            hs = [0, 7, 300, 1000] if acc != 'sh' else [0, 7]
             # ------------------------------------------------------------ C11: histories on the pool
             if 'C11' in purposes:
                 seq = ['pr']; n = 0
@@ -77,10 +79,10 @@ def gen_cases(seed, tier, purposes):
                 cases.append(VCase(inst, es, ss, pv, seq, 'C11'))
             # ------------------------------------------------------------ C03: access forms
             if 'C03' in purposes and r >= 0 and span > 0:
-                h = rnd.choice([0, 7, 300]); seq = ['cma:0:%d:%d' % (h, rnd.randint(1, 9)), 'ob:0']
+                h = rnd.choice([0, 7, 300] if acc != 'sh' else [0, 7]); seq = ['cma:0:%d:%d' % (h, rnd.randint(1, 9)), 'ob:0']
                 idxs = list(itertools.product(*[range(e) for e in es]))
                 pick = idxs if len(idxs) <= 6 else rnd.sample(idxs, 6)
-                forms = ['pack', 'arr', 'cls', 'span']
+                forms = ['pack', 'arr', 'cls', 'span'] + (['br1'] if r == 1 else [])
                 for ix in pick:
                     for f in (forms if not thorough else forms * 2):
                         ity = rnd.choice(list(C.ITYPES))
